@@ -390,6 +390,7 @@ func UU() []Call {
 type Arg struct {
 	Package string `json:"package"`
 	Config  int    `json:"config,omitempty"` // size only: index into SizeConfigs
+	Zeroth  string `json:"zeroth_call,omitempty"` // depth-3 histories: called before First
 	First   string `json:"first_call,omitempty"`
 	Second  string `json:"judged_call"`
 }
@@ -471,14 +472,91 @@ func probe(a Arg) (string, string) {
 	if first == nil {
 		return "unknown_call", a.First
 	}
+	var zeroth *Call
+	if a.Zeroth != "" {
+		if zeroth = find(cs, a.Zeroth); zeroth == nil {
+			return "unknown_call", a.Zeroth
+		}
+	}
 	reset(a.Package)
 	setup(a)
+	before := a.First
+	if zeroth != nil {
+		run(zeroth.Fn)
+		before = a.Zeroth + " and then " + a.First
+	}
 	run(first.Fn)
 	after := run(second.Fn)
 	if after != alone {
-		return "outcome_depends_on_earlier_call", fmt.Sprintf("%s.%s gives %s as the first call of a fresh process but %s when %s was called before it", a.Package, a.Second, alone, after, a.First)
+		return "outcome_depends_on_earlier_call", fmt.Sprintf("%s.%s gives %s as the first call of a fresh process but %s when %s was called before it", a.Package, a.Second, alone, after, before)
 	}
 	return "", ""
+}
+
+// entryPoint is the name of the function or method a call exercises (the call's name up to its argument list).
+func entryPoint(name string) string {
+	if i := strings.IndexByte(name, '('); i >= 0 {
+		return name[:i]
+	}
+	return name
+}
+
+// depth3 explores the histories of three calls (c0; c1; j), j judged against its outcome as a first call. Quick tier: the
+// repeated-call slice c0 == c1 (state that changes on the second sighting of a call). Thorough tier: every ordered pair
+// (c0, c1) of the package alphabet, unless that is more than maxTriples histories for the package - then c0 ranges over the
+// first call of each distinct entry point only (stated in the outcome line and the phase bound).
+const maxTriples = 2500000
+
+func depth3(r *mc.Run, w *mc.W, p *mc.Probe[Arg], pkg string, cs []Call, want map[string]bool) string {
+	judged := 0
+	for _, c := range cs {
+		if len(want) == 0 || want[c.Tag] {
+			judged++
+		}
+	}
+	zeroths := cs
+	mode := "every ordered pair (c0,c1) of the alphabet"
+	if r.Quick() {
+		mode = "c0 == c1 (a call repeated)"
+	} else if len(cs)*len(cs)*judged > maxTriples {
+		zeroths = nil
+		seen := map[string]bool{}
+		for _, c := range cs {
+			if e := entryPoint(c.Name); !seen[e] {
+				seen[e] = true
+				zeroths = append(zeroths, c)
+			}
+		}
+		mode = fmt.Sprintf("c0 over the first call of each of the %d entry points, c1 over the alphabet", len(zeroths))
+	}
+	n := 0
+	for _, second := range cs {
+		if len(want) > 0 && !want[second.Tag] {
+			continue
+		}
+		for _, first := range cs {
+			if r.Quick() {
+				if w.Expired() {
+					return mode + " (deadline)"
+				}
+				w.Point()
+				w.NonTrivial()
+				p.Do(w, Arg{Package: pkg, Zeroth: first.Name, First: first.Name, Second: second.Name})
+				n++
+				continue
+			}
+			for _, zeroth := range zeroths {
+				if w.Expired() {
+					return mode + " (deadline)"
+				}
+				w.Point()
+				w.NonTrivial()
+				p.Do(w, Arg{Package: pkg, Zeroth: zeroth.Name, First: first.Name, Second: second.Name})
+				n++
+			}
+		}
+	}
+	return fmt.Sprintf("%s: %d calls, %d judged, %s: %d histories", pkg, len(cs), judged, mode, n)
 }
 
 // ---------------------------------------------------------------- concurrent first use (supplement)
@@ -585,11 +663,30 @@ func Phase(r *mc.Run, tags map[string][]string) {
 			})
 			libdefaults.All()
 		})
+	bound3 := "thorough: all (c0,c1,j) with c0,c1 over the package alphabet (c0 over one call per entry point where that exceeds 2.5M histories), default configuration"
+	if r.Quick() {
+		bound3 = "quick: the slice c0 == c1 (a call repeated, then the judged call), default configuration"
+	}
+	r.Phase(fmt.Sprintf("serial: history independence at depth 3 (%s): three calls from the initial state, the third judged against its outcome as a first call", strings.Join(pkgs, ", ")), bound3, func() {
+		if mc.LibReset == nil {
+			return
+		}
+		r.Serial(func(w *mc.W) {
+			for _, pkg := range pkgs {
+				want := map[string]bool{}
+				for _, t := range tags[pkg] {
+					want[t] = true
+				}
+				w.Outcome("depth 3: " + depth3(r, w, p, pkg, alphabets[pkg](), want))
+			}
+		})
+		libdefaults.All()
+	})
 	pc := mc.NewProbe(r, "concurrent_first_use", func(a ConcArg) { setup(Arg{Package: a.Package, Config: a.Config}) }, probeConcurrentFirst)
 	pc.SelfReset = true
 	if r.FirstPass() || r.Replaying() {
 		r.Phase(fmt.Sprintf("serial: supplement (free-running, not exhaustive): every judged entry point of %s called from 8 goroutines at once as the first use of a fresh process, 12 attempts each", strings.Join(pkgs, ", ")), "12 attempts per call", func() {
-			if mc.LibReset == nil {
+			if mc.LibReset == nil || r.HasViolations() { // violations of the serial histories already decide the run
 				return
 			}
 			r.Serial(func(w *mc.W) {
